@@ -55,7 +55,7 @@ theorem gen_bhp_parse_empty (grow : Nat → Nat → Nat) (fuel : Nat) (lcs : Sli
     split at h
     · exact Or.inl ⟨‹_›, h⟩
     · exact Or.inr ⟨‹_›, h⟩
-  unfold backwardHashParser_Parse
+  unfold backwardHashParser_Parse backwardHashParser_Parse_nilable; simp only [Bool.false_eq_true]
   simp only [if_false]
   -- `n = min(len(s.Data) - s.W, s.BlockSize)` in whatever form the text computes it: its value is 0
   bhp_val (0 : Int)
@@ -168,7 +168,7 @@ theorem gen_bhp_parse (grow : Nat → Nat → Nat) (fuel : Nat) (lcs : Slice →
     unfold Slice.slice
     simp [Slice.cap]
   generalize hG : backwardHashParser_Parse grow fuel lcs s blk flags = G
-  unfold backwardHashParser_Parse at hG
+  unfold backwardHashParser_Parse backwardHashParser_Parse_nilable at hG; simp only [Bool.false_eq_true] at hG
   simp only [if_false] at hG
   -- `n = min(len(s.Data) - s.W, s.BlockSize)` in whatever form the text computes it
   bhp_val (((ofBHPs s).blockN : Nat) : Int) at hG
